@@ -49,6 +49,9 @@ type Case struct {
 	Commented    bool        // -comment-verilog
 	Strict       bool        // replay files of recorded findings: judge the recorded signatures too
 	Focus        string      `json:",omitempty"` // replay files of recorded findings: judge only this signature (implies Strict for it)
+	// Twin: processor 1 is a second instance of processor 0's domain (its own Proc entry only contributes its
+	// shared-object attachments, which may differ from processor 0's)
+	Twin bool `json:",omitempty"`
 }
 
 // ---------------------------------------------------------------------------
@@ -213,7 +216,11 @@ func build(c Case) (*built, error) {
 		bm.Add_output()
 	}
 	for i := range c.Procs {
-		if _, err := bm.Add_processor(i); err != nil {
+		dom := i
+		if c.Twin && i == 1 {
+			dom = 0
+		}
+		if _, err := bm.Add_processor(dom); err != nil {
 			return nil, err
 		}
 	}
@@ -237,7 +244,7 @@ func build(c Case) (*built, error) {
 		for _, so := range bm.Shared_links[p] {
 			parts = append(parts, bm.Shared_objects[so].String())
 		}
-		bm.Domains[p].Arch.Shared_constraints = strings.Join(parts, ",")
+		bm.Domains[bm.Processors[p]].Arch.Shared_constraints = strings.Join(parts, ",")
 	}
 	// ConstraintCheck is what cmd/procbuilder asks before it does anything with a machine
 	for _, m := range bm.Domains {
